@@ -232,6 +232,50 @@ theorem connect_malformed (s : Bytes) (hne : s ≠ []) (h : s.length > 10 ∨ pa
   · simp [h]
   · by_cases hl : s.length > 10 <;> simp [hl, h]
 
+theorem parseDigits_nondigit (bs : Bytes) (acc : Nat) (h : ∃ b ∈ bs, isDigit b = false) :
+    parseDigits bs acc = none := by
+  induction bs generalizing acc with
+  | nil => simp at h
+  | cons c t ih =>
+    by_cases hc : isDigit c = true
+    · obtain ⟨b, hb, hd⟩ := h
+      have hbt : b ∈ t := by
+        rcases List.mem_cons.mp hb with rfl | hbt
+        · simp [hc] at hd
+        · exact hbt
+      simp only [parseDigits, hc, if_true]
+      exact ih _ ⟨b, hbt, hd⟩
+    · simp [parseDigits, hc]
+
+theorem parseDec_nondigit (bs : Bytes) (h : ∃ b ∈ bs, isDigit b = false) : parseDec bs = none := by
+  cases bs with
+  | nil => simp at h
+  | cons c t => simpa [parseDec] using parseDigits_nondigit (c :: t) 0 h
+
+/-- **connect_foreign_byte_rejected**: a Connect-Timeout-Ms value with any byte that is not a
+    decimal digit after the first position - a comma ("5,000", "1000, 2000"), a unit, a blank, a
+    dot - is malformed whatever precedes that byte: nothing is cut off and no prefix is honoured. -/
+theorem connect_foreign_byte_rejected (c : UInt8) (rest : Bytes) (h : ∃ b ∈ rest, isDigit b = false) :
+    connectParseTimeout (c :: rest) = .invalid := by
+  apply connect_malformed _ (by simp)
+  right
+  by_cases h43 : c = 43
+  · subst h43; simp [parseInt64, parseDec_nondigit rest h]
+  · by_cases h45 : c = 45
+    · subst h45; simp [parseInt64, parseDec_nondigit rest h]
+    · have hd : parseDec (c :: rest) = none := by
+        obtain ⟨b, hb, hbd⟩ := h
+        exact parseDec_nondigit (c :: rest) ⟨b, List.mem_cons_of_mem _ hb, hbd⟩
+      unfold parseInt64
+      split
+      · rename_i heq; cases heq
+      · rename_i heq; cases heq; exact absurd rfl h43
+      · rename_i heq; cases heq; exact absurd rfl h45
+      · simp [hd]
+
+-- "5,000" is rejected
+example : connectParseTimeout [53, 44, 48, 48, 48] = .invalid := by decide
+
 /-- no header ⇒ no deadline -/
 theorem no_header_no_deadline : grpcParseTimeout [] = .noTimeout ∧ connectParseTimeout [] = .noTimeout := by
   constructor <;> rfl
